@@ -57,6 +57,27 @@ def lookup_loops(F):
         out.append(ok("R-SIB", inst, f2.loc(i2["id"]), f2.qn, req, fmt_term(pred)))
     else:
         out.append(bad("R-SIB", inst, f2.loc(i2["id"]), f2.qn, req, "predicate %s, range %s" % (fmt_term(pred), fmt_term(s2[1]))))
+    # overrides of the (virtual) index lookup must search by the order the archive is sorted by
+    base = F.fn(ARC + "::GetIndex", nparams=1)
+    for k in sorted(F.overriders.get(base.key, ())):
+        ov = F.functions.get(k)
+        if ov is None:
+            continue
+        inst = "%s#override-agrees" % ov.qn
+        req = "an override of GetIndex finds exactly the members Contains finds (same case-blind comparison / same sort key)"
+        srch = [nd for nd in ov.nodes if nd["k"] in CALLS and (nd.get("fq") or "") in ("std::lower_bound", "std::binary_search", "std::upper_bound", "std::equal_range")]
+        uses = " ".join(repr(ov.term(nd["id"])) for nd in srch)
+        if srch and ("ComparePathFilenames" in uses or "IsEqualCaseInsensitive" in uses) and "ConvertToUpper" not in " ".join((nd.get("fq") or "") for nd in ov.all_calls()):
+            out.append(ok("R-SIB", inst, ov.loc(ov.body), ov.qn, req, "binary search with the archive's own comparator"))
+        elif srch:
+            out.append(bad("R-SIB", inst, ov.loc(srch[0]["id"]), ov.qn, req,
+                           "binary search with a different ordering / case folding than the one the members are sorted by (IsEqualCaseInsensitive folds with tolower)"))
+        else:
+            sub = [nd for nd in ov.nodes if nd["k"] in CALLS and (nd.get("fq") or "").endswith("XFile::PathsAreEqual")]
+            if sub:
+                out.append(ok("R-SIB", inst, ov.loc(ov.body), ov.qn, req, "linear scan with PathsAreEqual"))
+            else:
+                raise AnalysisBroken("%s overrides GetIndex with an unrecognised lookup" % ov.qn)
     # GetIndex returns the loop index of the match; Contains returns true there
     inst = ARC + "::GetIndex#returns-match"
     if len(r2) == 1 and f2.term(r2[0]["value"]) == v2:
